@@ -238,15 +238,13 @@ impl ToZinc for Symbol {
 impl ToZinc for Uri {
     fn to_zinc<W: std::io::Write>(&self, writer: &mut W) -> Result<()> {
         writer.write_all(b"`")?;
+        let mut buf = [0; 4];
         for c in self.value.chars() {
-            if c < ' ' {
-                continue;
-            }
             match c {
                 '`' => writer.write_all(br"\`")?,
                 '\\' => writer.write_all(br"\\")?,
-                '\x20'..='\x7e' => writer.write_all(&[c as u8])?,
-                _ => writer.write_fmt(format_args!("\\u{:04x}", c as u32))?,
+                c if c < ' ' => writer.write_fmt(format_args!("\\u{:04x}", c as u32))?,
+                _ => writer.write_all(c.encode_utf8(&mut buf).as_bytes())?,
             }
         }
         writer.write_all(b"`")?;
